@@ -637,6 +637,11 @@ pub fn coordinator_main(check: &dyn Check, ctx: &Ctx, jobs: u64, max_secs: Optio
     {
         let mut checked_chunks: HashSet<u64> = HashSet::new();
         for f in unexplained.iter().take(3) {
+            if f.1.contains("|FREERUN|") {
+                // observed with free-running threads: a real counterexample, but the
+                // OS chose the interleaving, so it need not recur in a second run
+                continue;
+            }
             if !checked_chunks.insert(f.0) {
                 continue;
             }
